@@ -117,6 +117,22 @@ impl Scheduler for ReplayScheduler {
                             return Some(next);
                         }
                     } else {
+                        if self.target_clock.is_some() {
+                            // In a replay restricted to a target clock, a recorded task can only have
+                            // become unrunnable because a step it depends on was skipped as concurrent
+                            // with the target; then this step is concurrent with the target as well.
+                            // Skip it (and the random draws it made) like any other irrelevant step,
+                            // instead of abandoning the replay and dropping later steps of the target.
+                            self.steps += 1;
+                            let mut skipped = 1;
+                            while let Some(ScheduleStep::Random) = self.schedule.steps.get(self.steps) {
+                                skipped += 1;
+                                self.steps += 1;
+                                self.data_source.next_u64();
+                            }
+                            self.steps_skipped += skipped;
+                            continue;
+                        }
                         assert!(
                             self.allow_incomplete,
                             "scheduled task is not runnable, expected to run {next:?}, but choices were {runnable:?}"
